@@ -130,6 +130,15 @@ def main(args):
             known_counts[fid] = known_counts.get(fid, 0) + len(hit)
         for v in res["violations"]:
             viols.append({"scenario": scn, "violation": v, "pass": "directed"})
+    # 1b. regressions of fixed findings (a fixed entry suppresses nothing)
+    for f in findings.load():
+        if f["property"] == PROP and f["status"] == "fixed" and str(f.get("regression", "")).endswith(".json"):
+            with open(os.path.join(driver.VERIF_DIR, f["regression"])) as fh:
+                rscn = json.load(fh)["scenario"]
+            res = gen07.execute(rscn)
+            gen07.summarise_events(rscn, res, total)
+            for v in res["violations"]:
+                viols.append({"scenario": rscn, "violation": v, "pass": "regression:" + f["id"]})
     # 2. seeded sampling
     seeds = [seed * 1000003 + i for i in range(n_runs)]
     wall_cap = args.wall_cap
